@@ -71,6 +71,8 @@ def spec_for(P, inst):
     if re.match(r'^arch::(all|x86_64::sse2|x86_64::avx2|aarch64::neon|wasm32::simd128)::packedpair::Finder::find_prefilter$', p) \
             or p == 'memmem::searcher::Prefilter::find_simple' or re.match(r'^memmem::searcher::prefilter_kind_\w+$', p):
         return {'kind': 'pairpre', 'mode': 'fwd', 'needles': 'pair', 'n': 1}
+    if re.match(r'^arch::(x86_64::sse2|x86_64::avx2|aarch64::neon|wasm32::simd128)::packedpair::Finder::find$', p):
+        return {'kind': 'pairpre', 'mode': 'fwd', 'needles': 'pair', 'n': 1, 'find': True}
     m = re.match(r'^memchr::mem(r?)chr([23]?)$', p)
     if m:
         return {'kind': 'slice', 'mode': 'rev' if m.group(1) else 'fwd', 'needles': 'args', 'n': N_OF[m.group(2)]}
@@ -104,7 +106,7 @@ def install(spec, base_contract):
         info = {}
         needles = []
         if spec['kind'] == 'pairpre':
-            install_pair(I, inst, st, args, info)
+            install_pair(I, inst, st, args, info, real_needle=args[2] if spec.get('find') and len(args) > 2 else None)
             st.ghost['spec_info'] = info
             return args
         if spec['needles'] == 'args':
@@ -145,7 +147,7 @@ class _Fr:
         self.inst = inst
 
 
-def install_pair(I, inst, st, args, info):
+def install_pair(I, inst, st, args, info, real_needle=None):
     """C11: the prefilter `self` was built from SOME needle of length n that has byte b1 at offset i1 and
     b2 at i2 (ghost n, constrained only by what the finder's own fields say about it); candidate position p
     is *rejected* when haystack[p+i1] != b1 or haystack[p+i2] != b2; the needle can only occur at positions
@@ -159,6 +161,10 @@ def install_pair(I, inst, st, args, info):
     n = fresh('ghost_needle_len')
     st.store.add_le(C(2) - V(n))
     st.store.add_le(V(n) - V(I.regions[hs.ptr.r].L) * 0 - C(1 << 62))
+    if isinstance(real_needle, SliceV):
+        # `find(haystack, needle)`: the needle is an argument (REL relates it to the finder); a position is rejected
+        # when the pair is absent there or when the confirming comparison against THIS needle fails
+        st.store.add_eq(V(n) - real_needle.n)
     p = mm.tpath(I, f)
     b1 = b2 = i1 = i2 = None
     portable = False
@@ -213,6 +219,8 @@ def install_pair(I, inst, st, args, info):
         st.store.add_le(i + 1 - V(n))
     sym = fresh('pairneedle')
     st.ghost['pairspec'] = {'b1': st.store.nf(b1), 'b2': st.store.nf(b2), 'i1': st.store.nf(i1), 'i2': st.store.nf(i2), 'sym': V(sym), 'n': V(n)}
+    if isinstance(real_needle, SliceV):
+        st.ghost['pairspec']['needle'] = (real_needle.ptr.r, real_needle.ptr.off, real_needle.n)
     start = hs.ptr.off
     end = hs.ptr.off + hs.n - V(n) + 1
     e3.init_search(I, st, hs.ptr.r, start, end, [V(sym)])
